@@ -103,6 +103,13 @@ def user_call(ip, fr, c, t, args, st):
                 tv = None
             if tv is not None and tv[0] == "opq":
                 st.store[("H", tv[1])] = ip.fresh_int(st, "h")[1]
+                # assumption A-size: entry_size of any (key, value) pair is representable in usize
+                for eo, ev in st.store.items():
+                    if eo[0] == "E" and isinstance(ev, tuple) and ev and ev[0] == "struct" and ev[1] == ip.r.entry and ev[2].get(ip.r.E_VAL) == tv:
+                        kk = ev[2].get(ip.r.E_KEY)
+                        if kk is not None and kk[0] == "opq":
+                            szE = Lin.sym("sz[%s]" % ip.entry_ty_str())
+                            st.num.add(le(heap_of(ip, st, kk[1]) + st.store[("H", tv[1])] + szE, Lin.sym("UM")))
     if c.user_kind == "clone" and args and args[0][0] == "ptr":
         tv = ip.load(st, *ip.resolve_ptr(st, args[0]))
         if tv[0] == "opq":
@@ -609,6 +616,7 @@ def m_size_of(ip, fr, c, t, args, st):
     ty = c.fn["args"][0].get("s") if c.fn.get("args") else "?"
     s = "sz[%s]" % ty
     st.num.add(ge(Lin.sym(s), 0))
+    st.num.add(le(Lin.sym(s), Lin.sym("UM")))
     return [(vint(Lin.sym(s)), st)]
 
 
